@@ -855,6 +855,39 @@ func runCase(spec *caseSpec) {
 		}
 	}
 
+	// ---- findRoots with the k-th source operation failing (hook), against the model's find_roots_e:
+	// the error must surface at exactly that operation, a success must be the fault-free root set
+	if spec.Fault > 0 && err == nil {
+		kk := 1 + spec.Fault%(counter.ops+2) // counter.ops+1 and beyond: never reached
+		fsrc := &faultSrc{ReadOnlyGraphStorage: hookSrc, countdown: kk}
+		var src content.ReadOnlyGraphStorage = fsrc
+		if remoteTruth {
+			src = faultLister{fsrc}
+		}
+		eid := run.NewID()
+		froots, ferr := oras.VerifFindRoots(ctx, src, startDesc, buildOpts(spec, fs))
+		eobs := "ERR"
+		if ferr == nil {
+			seen := map[int]bool{}
+			for _, r := range froots {
+				seen[rec.id(r)] = true
+			}
+			eobs = "OK " + idsString(sortedKeys(seen))
+		}
+		run.Case(eid, fmt.Sprintf("FE %d %d %d %s %d %s %s %s", len(g.Nodes), spec.Limit, spec.Start, lister, kk, ftok, ntok, rtok), eobs)
+		run.Count("findRoots-fault")
+		switch {
+		case ferr != nil && !fsrc.hit:
+			run.OracleFail(eid, "spurious-error", fmt.Sprintf("findRoots failed although the armed fault (operation %d of %d) was not reached: %v", kk, counter.ops, ferr), spec)
+		case ferr == nil && fsrc.hit:
+			run.OracleFail(eid, "error-swallowed", fmt.Sprintf("operation %d of %d of findRoots failed, findRoots returned success with roots %s", kk, counter.ops, eobs), spec)
+		case ferr == nil && eobs != obs:
+			run.OracleFail(eid, "error-swallowed", fmt.Sprintf("with an armed (unreached) fault findRoots returned %s, without %s", eobs, obs), spec)
+		case ferr != nil:
+			run.Count("findRoots-fault=error")
+		}
+	}
+
 	// ---- opts.FindPredecessors on every node: filter exactness
 	if opts.FindPredecessors != nil {
 		for _, n := range g.Nodes {
@@ -1441,6 +1474,7 @@ func coverageFloors() {
 	need("graph=fan", 100)
 	need("referrers-by-type", 100)
 	need("fault=hit", 50)
+	need("findRoots-fault=error", 50)
 	need("fault=error-surfaced", 50)
 	need("dst=prefilled", 100)
 	need("filters=1", 300)
